@@ -229,3 +229,55 @@ def built_from_snapshot(which: int, v0: int, v1: int, v2: int, w: int, key: int)
     if eq != (old == w):
         return 0
     return 2
+
+
+
+@dataset.nocache
+def _rate_ds(p: int = Option("RATE.PERCENT")) -> tuple:
+    return ("rate", p)
+
+
+@datasetclass
+class Pricing:
+    amount: int = Option("AMOUNT")
+    _rate: tuple = _rate_ds               # a private (single underscore) evaluatable member
+    cfg: dict = Option("CFG", {})          # a section-valued option
+    first: str = Option("HOSTS.0", "nohost")     # a list-indexed dotted key with a default
+
+
+@harness("C19", lemma="private-and-structured-members", example=dict(a=1, r=2, pr=True, h=3, ph=True), timeout=300,
+         bounds="a dataset class with a private evaluatable member, a section-valued option and a list-indexed key; RATE.PERCENT and "
+                "HOSTS present or absent",
+         what="validate / keys / explain of the class are the union over ALL evaluatable members (private ones included) and agree "
+              "with instantiation about missing options; a list-indexed member gets its list element; two instances built from "
+              "equal dictionaries that list a section's keys in a different order are equal")
+def private_and_structured_members(a: int, r: int, pr: bool, h: int, ph: bool) -> int:
+    o = {"AMOUNT": a, "CFG": {"x": 1, "y": 2}}
+    o2 = {"CFG": {"y": 2, "x": 1}, "AMOUNT": a}
+    if pr:
+        o["RATE"] = {"PERCENT": r}
+        o2["RATE"] = {"PERCENT": r}
+    if ph:
+        o["HOSTS"] = [h, h + 1]
+        o2["HOSTS"] = [h, h + 1]
+    with quiet():
+        inst = outcome(lambda: Pricing(o))
+        keys = outcome(lambda: Pricing.keys(o))
+        val = outcome(lambda: Pricing.validate(o))
+        ex = outcome(lambda: Pricing.explain(o))
+    note("options", o, "instance", inst[0], "keys", keys, "validate", val[0], "explain", ex)
+    if not ((inst[0] == "ok") == (keys[0] == "ok") == (val[0] == "ok") == pr):
+        return 0
+    if ex[0] != "ok" or "RATE.PERCENT" not in ex[1]:
+        return 0
+    if not pr:
+        return 1
+    if "RATE.PERCENT" not in keys[1] or "AMOUNT" not in keys[1]:
+        return 0
+    if not same(inst[1]._rate, ("rate", r)) or not same(inst[1].first, h if ph else "nohost"):
+        return 0
+    with quiet():
+        twin = outcome(lambda: Pricing(o2))
+    if twin[0] != "ok" or not (inst[1] == twin[1]) or not (twin[1] == inst[1]):
+        return 0
+    return 2
